@@ -223,7 +223,7 @@ void h_disjoint(void) {
 }
 """
     return dict(unit="K5_disjointness_lemma", lang="c", source="(lemma over the K5 contract)", text=txt, entry="h_disjoint",
-                mode="proof", timeout=60, functions={"K5 disjointness lemma": "proved"})
+                mode="proof", timeout=600, functions={"K5 disjointness lemma": "proved"})
 
 
 def _swap_unit(site, rel, bounded):
